@@ -36,7 +36,7 @@ ENUMNOTE = ("trusted base: the reference predicate / model written from the prop
             "the checked packages are built with their sync import rewritten to verif/vsync (plain mode = package sync)")
 
 claim("C07", "model_checking", "fsmx",
-      "explicit-state BFS by replay of both maker roles (peer silence, cancel / bad coop_close / invalid message, faults after the wallet broadcast, output orderings, restarts, crash at every effect op) + durable-record invariant + deterministic drain to CSV maturity with real spends validated by the btcd script engine + sub-check: CSV-registration families of the real-watcher block-history BFS with a fair continuation after every history (maturity must be reported)",
+      "explicit-state BFS by replay of both maker roles (peer silence, cancel / bad coop_close / invalid message, faults after the wallet broadcast, output orderings, restarts, crash at every effect op) + durable-record invariant + deterministic drain to CSV maturity with real spends validated by the btcd script engine + sub-check: CSV-registration families of the real-watcher block-history BFS with a fair continuation after every history (maturity must be reported), incl. a failed registration at lnd and a csv callback that fails once (rpc watcher)",
       "Exhaustive (bounded) histories of the real maker state machines; in every state the durable record is compared with the wallet's broadcast log, and every state with locked, unpaid funds is drained to CSV maturity where a consensus-valid refund must reach the simulated chain. Sub-check: from every explored watcher state with an open CSV registration, healthy services and a growing chain must lead to a maturity report (otherwise the refund is never triggered).",
       E1NOTE, "DESIGN.md §5 C07")
 claim("C09", "model_checking", "fsmx",
@@ -56,7 +56,7 @@ claim("C17", "model_checking", "fsmx",
       "All orders (bounded) of request / agreement / cancel / timeout / restart before the opening transaction for both requester roles and the swap-out responder; cancel state and cancel message are required once 10 virtual minutes have passed. ",
       E1NOTE, "DESIGN.md §5 C17")
 claim("C22", "model_checking", "fsmx",
-      "explicit-state BFS of maker histories after the announcement under virtual time; interval-agnostic monitor on the send instants of opening_tx_broadcasted (failed sends count as attempts; up to 25 consecutive send failures) ; sub-check: stateless DFS over thread schedules of recovery || message handling on the real Manager, then an AddSender probe: nothing may still be registered for a finished swap",
+      "explicit-state BFS of maker histories after the announcement under virtual time; interval-agnostic monitor on the send instants of opening_tx_broadcasted (failed sends count as attempts; up to 25 consecutive send failures) ; sub-check: stateless DFS over thread schedules of recovery || message handling on the real Manager, then an AddSender probe: nothing may still be registered for a finished swap ; store write faults (next write / the one after it)",
       "All maker histories (bounded) after the announcement interleaved with virtual-time steps; the real RedundantMessenger / Manager run on the fake clock and the oracle checks one arithmetic progression while waiting and at most one already-due copy afterwards.",
       E1NOTE, "DESIGN.md §5 C22")
 claim("C02", "model_checking", "enum",
@@ -112,7 +112,7 @@ claim("C05", "model_checking", "fsmx",
       "Every payment attempt in every explored history is checked for h_pay + route allowance < confirmation height + 1008.",
       ADVNOTE, "DESIGN.md §5 C05")
 claim("C26", "model_checking", "fsmx",
-      "explicit-state BFS of both maker roles to every history ending in a CSV refund, with the real policy.Policy on a real file and a real peersync.PeerSync; probes after the refund, also after a restart ; up to two operator actions on the running policy before the refund; well-formed and unparseable capability payloads; crash points after durable writes, the policy write being one ; the peer-sync instance lives as long as the swap service and may have talked to the peer before the refund; the operator may take the peer off the allow-list after the refund",
+      "explicit-state BFS of both maker roles to every history ending in a CSV refund, with the real policy.Policy on a real file and a real peersync.PeerSync; probes after the refund, also after a restart ; up to two operator actions on the running policy before the refund; well-formed and unparseable capability payloads; crash points after durable writes, the policy write being one ; the peer-sync instance lives as long as the swap service and may have talked to the peer before the refund; the operator may take the peer off the allow-list after the refund ; another peer, sorting before / after this one, may have been quarantined earlier",
       "In every state reached after a CSV refund the policy file, a policy re-created from it, incoming requests, local initiations and poll / request_poll handling are probed. ",
       E1NOTE + "; real policy file and real bbolt peer store", "DESIGN.md §5 C26")
 
